@@ -100,8 +100,10 @@ def select(E, t, dim, index, node=None):
         index = z3.If(i < 0, i + nn, i)
     shape = [s for k, s in enumerate(t.shape) if k != dim]
     base = t.strides if t.strides is not None else contiguous_strides(t.shape)
-    return view_of(t, t.dtype, shape, lambda idx: list(idx[:dim]) + [index] + list(idx[dim:]),
-                   tuple(b for k, b in enumerate(base) if k != dim))
+    r = view_of(t, t.dtype, shape, lambda idx: list(idx[:dim]) + [index] + list(idx[dim:]),
+                tuple(b for k, b in enumerate(base) if k != dim))
+    r.attrs["select_of"] = (t, dim, index)
+    return r
 
 
 def tensor_getitem(E, t, key, node=None):
@@ -161,7 +163,36 @@ def gather_list(E, t, dim, lst, node=None):
         return tf(j)
 
     tf = t.snap()
-    return STensor(t.dtype, shape, elem, device=t.device)
+    out = STensor(t.dtype, shape, elem, device=t.device)
+    ief = int_elem_of(t)
+    if ief is not None:
+        def ie(idx):
+            j = list(idx)
+            i = idx[dim]
+            ci = concrete_int(i) if is_sym(i) else i
+            if ci is not None:
+                j[dim] = lst[ci]
+            else:
+                src = z3.IntVal(lst[-1])
+                for p in range(len(lst) - 2, -1, -1):
+                    src = z3.If(zi(i) == p, lst[p], src)
+                j[dim] = src
+            return ief(j)
+        out.attrs["int_elem"] = ie
+    return out
+
+
+def int_elem_of(t):
+    """Integer-valued element function of an index tensor built from arange by views / list gathers (None if unknown)."""
+    if "int_elem" in t.attrs:
+        return t.attrs["int_elem"]
+    if t.imap is not None and t.base is not None:
+        f = int_elem_of(t.base)
+        if f is None:
+            return None
+        m = t.imap
+        return lambda idx: f(m(list(idx)))
+    return None
 
 
 def gather_dim(E, t, dim, index_t, node=None):
@@ -172,8 +203,12 @@ def gather_dim(E, t, dim, index_t, node=None):
     shape = list(t.shape[:dim]) + list(index_t.shape) + list(t.shape[dim + 1:])
 
     tf, itf = t.snap(), index_t.snap()
+    ief = int_elem_of(index_t)
 
     def elem(idx):
+        if ief is not None:
+            iv = ief(list(idx[dim:dim + ir]))      # integer meaning of the index tensor kept symbolically (no int<->bv round trip)
+            return tf(list(idx[:dim]) + [iv] + list(idx[dim + ir:]))
         iv = itf(list(idx[dim:dim + ir]))
         if E.alg.intmode == "bv":
             iv = z3.BV2Int(iv, is_signed=sym.INT_DTYPES[index_t.dtype][1])
@@ -258,6 +293,19 @@ def write_region(E, t, cond, val, node=None):
         return
     if t.attrs.get("identity_view"):
         write_region(E, t.base, cond, val, node)
+        return
+    if "select_of" in t.attrs:
+        b, dim, index = t.attrs["select_of"]
+
+        def inv(j):
+            return list(j[:dim]) + list(j[dim + 1:])
+
+        write_region(E, b, lambda j: z3.And(zi(j[dim]) == zi(index), cond(inv(j))), lambda j: val(inv(j)), node)
+        return
+    if "inv_imap" in t.attrs:
+        # bijective index maps (permute / reshape): base[j] is written iff the view index inv(j) is written
+        inv = t.attrs["inv_imap"]
+        write_region(E, t.base, lambda j: cond(inv(j)), lambda j: val(inv(j)), node)
         return
     raise Unsupported("in-place write through a non-slice view")
 
@@ -362,10 +410,15 @@ def permute(E, t, *dims, node=None):
 
     r = view_of(t, t.dtype, shape, elem, tuple(base[d] for d in dims))
     r.layout = ("permute", t, tuple(dims))
+    r.attrs["inv_imap"] = lambda j: [j[d] for d in dims]
     return r
 
 
-def transpose(E, t, d0, d1, node=None):
+def transpose(E, t, d0, d1=None, *more, node=None):
+    if more or d1 is None or isinstance(d0, (list, tuple)):
+        # numpy-style ndarray.transpose(*axes)
+        axes = list(d0) if isinstance(d0, (list, tuple)) else [d0] + ([d1] if d1 is not None else []) + list(more)
+        return permute(E, t, *axes, node=node)
     rank = len(t.shape)
     if rank == 0:
         return t
@@ -496,27 +549,88 @@ def reshape(E, t, *shape, node=None, is_view=False):
     src_shape = list(t.shape)
     if len(shape) == len(src_shape) and all(same_dim(E, a, b) is True for a, b in zip(shape, src_shape)):
         return view_of(t, t.dtype, shape, lambda idx: list(idx), t.strides, identity=True)
-    # common prefix / suffix of equal dims need no arithmetic
-    pre = 0
-    while pre < min(len(shape), len(src_shape)) and same_dim(E, shape[pre], src_shape[pre]) is True:
-        pre += 1
-    suf = 0
-    while suf < min(len(shape), len(src_shape)) - pre and same_dim(E, shape[-1 - suf], src_shape[-1 - suf]) is True:
-        suf += 1
-    mid_new = shape[pre: len(shape) - suf]
-    mid_old = src_shape[pre: len(src_shape) - suf]
+    # split both shapes into independent groups of dimensions with equal products (a reshape never mixes such groups):
+    # within a group the index map is flat / unflat arithmetic, which stays linear when at most the leading dim is symbolic
+    groups = []
+    i = j = 0
+    ok = True
+    while i < len(src_shape) or j < len(shape):
+        a0, b0 = i, j
+        pa = pb = 1
+        first = True
+        while first or not _prod_equal(E, pa, pb):
+            first = False
+            if i >= len(src_shape) and j >= len(shape):
+                ok = False
+                break
+            # extend the side with the smaller "progress": prefer consuming one dim from each side initially
+            if i == a0 and i < len(src_shape) and j == b0 and j < len(shape):
+                pa, pb = E.binop("Mult", pa, src_shape[i]), E.binop("Mult", pb, shape[j])
+                i += 1
+                j += 1
+            elif _divides(E, pa, pb) and i < len(src_shape):
+                pa = E.binop("Mult", pa, src_shape[i])
+                i += 1
+            elif j < len(shape):
+                pb = E.binop("Mult", pb, shape[j])
+                j += 1
+            elif i < len(src_shape):
+                pa = E.binop("Mult", pa, src_shape[i])
+                i += 1
+            else:
+                ok = False
+                break
+        if not ok:
+            break
+        groups.append((a0, i, b0, j))
+    if not ok:
+        groups = [(0, len(src_shape), 0, len(shape))]
+    # absorb size-1-only leftovers: groups are already complete by construction
 
     def elem(idx):
-        head = list(idx[:pre])
-        tail = list(idx[len(idx) - suf:]) if suf else []
-        mid = list(idx[pre: len(idx) - suf])
-        f = flat_index(mid_new, mid) if mid_new else 0
-        m = unflat_index(mid_old, f) if mid_old else []
-        return head + m + tail
+        out = [None] * len(src_shape)
+        for (a0, a1, b0, b1) in groups:
+            newd, oldd = shape[b0:b1], src_shape[a0:a1]
+            sub = list(idx[b0:b1])
+            if len(newd) == len(oldd) and all(same_dim(E, x, y) is True for x, y in zip(newd, oldd)):
+                vals = sub
+            else:
+                f = flat_index(newd, sub) if newd else 0
+                vals = unflat_index(oldd, f) if oldd else []
+            for k, v in enumerate(vals):
+                out[a0 + k] = v
+        return out
+
+    def inv(j):
+        out = [None] * len(shape)
+        for (a0, a1, b0, b1) in groups:
+            newd, oldd = shape[b0:b1], src_shape[a0:a1]
+            sub = list(j[a0:a1])
+            if len(newd) == len(oldd) and all(same_dim(E, x, y) is True for x, y in zip(newd, oldd)):
+                vals = sub
+            else:
+                f = flat_index(oldd, sub) if oldd else 0
+                vals = unflat_index(newd, f) if newd else []
+            for k, v in enumerate(vals):
+                out[b0 + k] = v
+        return out
 
     r = view_of(t, t.dtype, shape, elem)
     r.layout = ("reshape", t, tuple(shape))
+    r.attrs["inv_imap"] = inv
     return r
+
+
+def _prod_equal(E, a, b):
+    return same_dim(E, a, b) is True
+
+
+def _divides(E, a, b):
+    """True if the old-side product a is 'behind' the new-side product b (a divides b and a != b), so the old side must be extended."""
+    if not is_sym(a) and not is_sym(b):
+        return a < b
+    q = exact_div(zi(b), zi(a))
+    return q is not None and not _prod_equal(E, a, b)
 
 
 def flatten(E, t, start_dim=0, end_dim=-1, node=None):
@@ -528,7 +642,9 @@ def flatten(E, t, start_dim=0, end_dim=-1, node=None):
     return reshape(E, t, shape, node=node)
 
 
-def cat(E, tensors, dim=0, node=None):
+def cat(E, tensors, dim=0, node=None, axis=None):
+    if axis is not None:
+        dim = axis
     tensors = list(tensors)
     if not tensors:
         raise_(E, "RuntimeError", "torch.cat(): expected a non-empty list of Tensors", node)
